@@ -407,18 +407,19 @@ def gen_system(rng, big=False):
     shape = [rng.choice([1, 2, 3, 4, 5, 6, 7, 8] if not big else [1, 3, 5, 8, 9, 12]) for _ in range(3)]
     if max(shape) < 3:
         shape[rng.randint(0, 2)] = rng.randint(3, 8)
-    if nonuni:
+    explicit_uniform = (not nonuni) and rng.chance(0.12)      # an explicit RectilinearGrid with equal widths
+    if nonuni or explicit_uniform:
         unit = rng.choice([1.0, 0.25, 2.5e-8])
         edges = []
         for a in range(3):
-            w = [unit * rng.choice([0.5, 1.0, 1.0, 1.5, 2.0]) for _ in range(shape[a])]
+            w = [unit * (rng.choice([0.5, 1.0, 1.0, 1.5, 2.0]) if nonuni else 1.0) for _ in range(shape[a])]
             tot = sum(w)
             x0 = -tot / 2 if rng.chance(0.7) else 0.0
             e = [x0]
             for x in w:
                 e.append(e[-1] + x)
             edges.append(e)
-        if all(abs((e[k + 1] - e[k]) - (edges[0][1] - edges[0][0])) < 1e-3 * unit for e in edges for k in range(len(e) - 1)):
+        if nonuni and all(abs((e[k + 1] - e[k]) - (edges[0][1] - edges[0][0])) < 1e-3 * unit for e in edges for k in range(len(e) - 1)):
             edges[0][-1] += 0.5 * unit
         grid = {"kind": "custom", "edges": edges}
         sp = unit
@@ -426,17 +427,27 @@ def gen_system(rng, big=False):
         sp = rng.choice([1.0, 1.0, 0.5, 0.1, 2.5e-8])
         grid = {"kind": "uniform", "spacing": sp}
         edges = [[(k - shape[a] / 2) * sp for k in range(shape[a] + 1)] for a in range(3)]
-    tags["grid"] = "nonuniform" if nonuni else "uniform"
+    tags["grid"] = "nonuniform" if nonuni else ("explicit_uniform" if explicit_uniform else "uniform")
     n_other = rng.choice([0, 1, 1, 2, 2, 3, 3, 4, 5, 7] if not big else [2, 3, 4, 5, 6, 7, 7])
     tags["objects"] = n_other + 1
     vol = {"name": "vol", "vol": True, "gshape": list(shape), "rshape": [None] * 3, "rpos": [None] * 3}
-    if not nonuni and rng.chance(0.2):
+    objs = [vol]
+    cons = []
+    if not nonuni and not explicit_uniform and rng.chance(0.2):
         a = rng.randint(0, 2)
         vol["gshape"][a] = None
         vol["rshape"][a] = shape[a] * sp
         tags["vol_real_shape"] = 1
-    objs = [vol]
-    cons = []
+    elif (nonuni or explicit_uniform) and rng.chance(0.35):
+        # the volume declares no shape on one axis; its upper bound comes from a constraint (or from nowhere)
+        a = rng.randint(0, 2)
+        vol["gshape"][a] = None
+        r = rng.random()
+        if r < 0.45:
+            cons.append({"t": "R", "o": 0, "axes": [a], "sides": [True], "coords": [edges[a][-1]]})
+        elif r < 0.8 and explicit_uniform:
+            cons.append({"t": "G", "o": 0, "axes": [a], "sides": [True], "coords": [shape[a]]})
+        tags["vol_bound_from_constraint"] = 1
     target = [[(0, shape[a]) for a in range(3)]]
     for i in range(1, n_other + 1):
         objs.append({"name": f"obj{i}", "vol": False, "gshape": [None] * 3, "rshape": [None] * 3, "rpos": [None] * 3})
@@ -695,6 +706,18 @@ def witness_real_position_skip():
             "max_iter": 1000}
 
 
+def witness_volume_bound():
+    """extend_to(None) is visited before the constraint that gives the volume its upper bound"""
+    o = lambda n, v=False, g=(2, 2, 2): {"name": n, "vol": v, "gshape": list(g), "rshape": [None] * 3, "rpos": [None] * 3}
+    e = [float(k) - 4.0 for k in range(9)]
+    return {"grid": {"kind": "custom", "edges": [e, e, e]},
+            "objects": [o("vol", True, (None, 8, 8)), o("A", g=(None, 2, 2))],
+            "constraints": [{"t": "X", "o": 1, "other": None, "axis": 0, "dir": True, "opos": -1.0, "offset": 0.0, "goffset": 0},
+                            {"t": "G", "o": 0, "axes": [0], "sides": [True], "coords": [8]},
+                            {"t": "G", "o": 1, "axes": [0], "sides": [False], "coords": [3]}],
+            "max_iter": 1000}
+
+
 def small_systems():
     """systematic small family for the failing-input search: two objects A, B on one axis, every triple of
     pieces out of {grid coords of A, grid coords of B, A relative to B, B relative to A, sizes}"""
@@ -710,6 +733,10 @@ def small_systems():
     for rp in (-2.0, 0.0, 1.0):
         s = witness_real_position_skip()
         s["objects"][1]["rpos"][0] = rp
+        out.append(s)
+    for x in (3, 0):
+        s = witness_volume_bound()
+        s["constraints"][2]["coords"] = [x]
         out.append(s)
     return out
 
